@@ -277,6 +277,12 @@ def drive(I, st, ccell, max_polls, tag, on_pending=None, cancel_points=False):
     returns list of (state, kind, value, polls)"""
     done = []
     frontier = [(st, 0)]
+    if cancel_points:
+        # the earliest cancellation point: the task is aborted after it was spawned but before the executor polled it once
+        cs = st.fork()
+        cs.emit('CANCEL_BEFORE_FIRST_POLL')
+        for co in cancel_task(I, cs, ccell):
+            done.append((co.st, 'cancelled' if co.kind == 'ret' else co.kind, None, 0))
     while frontier:
         s, n = frontier.pop()
         outs = lc.poll_coro(I, s, ccell)
